@@ -224,6 +224,9 @@ func (C12) Run(t *testing.T, scn any) *sim.Outcome {
 						diag = "introduced-outside-explicit-list"
 					}
 				}
+				if aliasedRecordInGraph(t, w, filepath.Join(dir, "aliasdiag"), run1, out) {
+					feat = strings.TrimPrefix(feat+"+explicit-alias-record-in-graph", "+")
+				}
 				out.Violate("reanalysis-mismatch", fmt.Sprintf("reanalysis-mismatch:%s:%s:%s:%s%s", w.Sys, side, diag, feat, wf),
 					"applied %s; original %v - fixed %v + introduced %v = %s, but a fresh analysis of the written manifest finds %s (not found again: %v, unexpected: %v); written requirements: %v; %s",
 					patchString(p), vulnIDs(r1.Vulnerabilities), vulnIDs(p.Fixed), vulnIDs(p.Introduced), setString(want), setString(got), missing, extra, readBack(w, run1), ctx)
@@ -260,4 +263,59 @@ func dumpUnfinished(sc any) {
 		b, _ := json.Marshal(sc)
 		os.WriteFile(filepath.Join(d, "unfinished-"+sim.FP(sc)+".json"), b, 0o644)
 	}
+}
+
+// aliasedRecordInGraph: the explicit list is set, some listed record X carries the id of a
+// separate non-listed record N as an alias, and N is present in the ORIGINAL graph or in the graph
+// of the WRITTEN manifest (both analysed without any list).  The unchanged library ignores X
+// whenever N is in the analysed graph (ResolveGraphVulns puts N on the ignore list, which also
+// matches aliases), so original, report and fresh analysis disagree about X - a known finding.
+// The trait keeps it apart from aliases that only matter in intermediate graphs of patch attempts.
+func aliasedRecordInGraph(t *testing.T, w *World, dir, written string, out *sim.Outcome) bool {
+	if len(w.Opts.Explicit) == 0 {
+		return false
+	}
+	listed := map[string]bool{}
+	for _, e := range w.Opts.Explicit {
+		listed[e] = true
+	}
+	ids := map[string]bool{}
+	for _, v := range w.Vulns {
+		ids[v.ID] = true
+	}
+	cand := map[string]bool{}
+	for _, v := range w.Vulns {
+		if !listed[v.ID] {
+			continue
+		}
+		for _, a := range v.Aliases {
+			if ids[a] && !listed[a] {
+				cand[a] = true
+			}
+		}
+	}
+	if len(cand) == 0 {
+		return false
+	}
+	plain := Opts{Default: "major", DevDeps: true, MaxDepth: -1}
+	wdir := filepath.Join(dir, "written")
+	if err := copyTree(written, wdir); err != nil {
+		return false
+	}
+	for _, spec := range []RunSpec{
+		{Kind: "analyse", Dir: filepath.Join(dir, "orig"), Manifest: &w.Manifest, Opts: &plain, Pass: true},
+		{Kind: "analyse", Dir: wdir, Opts: &plain, Pass: true},
+	} {
+		o := Execute(t, w, spec)
+		out.Executions++
+		if o.An == nil {
+			continue
+		}
+		for _, id := range o.An.VulnIDs {
+			if cand[id] {
+				return true
+			}
+		}
+	}
+	return false
 }
